@@ -8,11 +8,14 @@ C, C++, C#, Java and for the function / method pattern of JavaScript and TypeScr
 a reader can check on a source file (`Spec/SynHeader.lean`, plain recursion on token lists):
 
 * `groupEnd toks i`   - index just past the `)` matching the `(` at `i` (depth counting on the
-  token texts `(` / `)`);
+  PUNCTUATION tokens `(` / `)`: token type in `Punctuation` and text equal, as `Balanced` does
+  with `Symbol` since the repair of defect F25; a string-literal token with the text `(` is an
+  ordinary token);
 * `groupsEnd toks i`  - index just past the maximal run of consecutive groups starting at `i`; a
   last group that is never closed extends to the end of the input
   (`groupsEnd_closed` / `groupsEnd_unclosed` / `groupsEnd_not_open` below);
-* `SynHeader toks p f` - `toks[p]` is a name token, `toks[p + 1]` is `(`, `f = groupsEnd toks (p + 1)`.
+* `SynHeader toks p f` - `toks[p]` is a name token, `toks[p + 1]` is a punctuation token `(`,
+  `f = groupsEnd toks (p + 1)`.
 
 Results, for every token list:
 
@@ -21,11 +24,12 @@ Results, for every token list:
 2. `c_header_sound`: every header reported for C / C++ / C# is a `SynHeader` followed by the symbol
    `{`, named by its first token.
 3. `c_header_complete`: a `SynHeader` followed by the symbol `{`, with no `Name (` strictly inside
-   its parameter list (KF1) and whose name token is not the text `)`, is reported, exactly once.
-   The isolation condition `hbefore` of `C01disc.canonical_header_found` is automatic
-   (`hbefore_automatic`) - EXCEPT for a name token with the text `)`:
-   `completeness_without_name_text_fails` is the counterexample (not producible by a lexer whose
-   name tokens are identifiers).
+   its parameter list (KF1), is reported, exactly once.  The isolation condition `hbefore` of
+   `C01disc.canonical_header_found` is automatic (`hbefore_automatic`).  Before the repair of F25
+   (`Balanced` compared token TEXTS) both needed the extra hypothesis "the name token does not have
+   the text `)`"; with `Symbol` predicates a name token can never close a group, so the hypothesis
+   is gone (`completeness_without_name_text_holds`, `name_token_close_is_ordinary`: the former
+   counterexample is now reported).
 4. `kf1_syntactic`: known finding KF1 restated syntactically.
 5. Java (`java_header_sound` / `java_header_complete`) and the function / method pattern of
    JavaScript and TypeScript (`js_…`, `ts_…`).
@@ -80,7 +84,7 @@ theorem groupsEnd_unclosed (toks : List Tok) (i : Nat) (ho : OpenAt toks i)
     (h : groupEnd toks i = none) : groupsEnd toks i = toks.length :=
   Syn.groupsEnd_unclosed ho h
 
-/-- the run stops at the first token after a complete group that is not `(` -/
+/-- the run stops at the first token after a complete group that is not a punctuation token `(` -/
 theorem groupsEnd_not_open (toks : List Tok) (i : Nat) (h : ¬ OpenAt toks i) :
     groupsEnd toks i = i :=
   Syn.groupsEnd_not_open h
@@ -128,19 +132,19 @@ theorem c_header_sound (L : Language) (hL : L ∈ cFamily) (toks : List Tok) (hs
 
 /-- Completeness on the canonical fragment.  A syntactic header `[p, f)` that is directly followed
 by the symbol `{`, has no call-shaped group `Name (` strictly inside its parameter list (known
-finding KF1), and whose name token is not the text `)` (see
-`completeness_without_name_text_fails`), is reported by `extract_headers` for C / C++ / C#, with
-its first token as name, and it is the only reported header that starts at `p`. -/
+finding KF1), is reported by `extract_headers` for C / C++ / C#, with its first token as name,
+and it is the only reported header that starts at `p`.  (`(` / `)` are punctuation tokens
+throughout: `OpenAt`, `groupsEnd`.  No hypothesis on the text of the name token is needed: a name
+token is not a punctuation token, see `completeness_without_name_text_holds`.) -/
 theorem c_header_complete (L : Language) (hL : L ∈ cFamily) (toks : List Tok) (hs : List Header)
     (h : extractHeaders L toks = .ok hs) (p f : Nat)
     (hsyn : SynHeader toks p f) (hbrace : SymbolAt toks f [123])
-    (hname : ∀ t, toks[p]? = some t → isClose t = false)
     (hnocall : ∀ q, p < q → q + 2 < f → ¬ (NameAt toks q ∧ OpenAt toks (q + 1))) :
     ∃ hd ∈ hs, hd.rng = ⟨p, f⟩ ∧ toks[p]? = some hd.name ∧
       ∀ hd' ∈ hs, hd'.rng.s = p → hd' = hd :=
   complete_cExpr (cFamily_shipped L hL) (cFamily_pattern L hL).1 h hsyn
     ((followsAt_brace toks f).2 hbrace) hbrace.lt
-    (prevOk_none (cFamily_pattern L hL).2 toks p) hname hnocall
+    (prevOk_none (cFamily_pattern L hL).2 toks p) hnocall
 
 /-- `extract_headers` returns on every token list (so `h` above is always available) -/
 theorem c_headers_total (L : Language) (hL : L ∈ cFamily) (toks : List Tok) :
@@ -150,21 +154,21 @@ theorem c_headers_total (L : Language) (hL : L ∈ cFamily) (toks : List Tok) :
 /-! ## 4. the isolation condition `hbefore` is automatic -/
 
 /-- The condition `hbefore` of `C01disc.canonical_header_found` holds for every syntactic header
-`[p, f)` that is followed by a token (`f < toks.length`) and whose name token is not the text `)`:
-an attempt from `q < p` that is still running at `p` is, from `p + 1` on, at least one level
-deeper than the header at `p`, so it cannot finish inside `(p, f]`. -/
+`[p, f)` that is followed by a token (`f < toks.length`): an attempt from `q < p` that is still
+running at `p` reads the name token `toks[p]` as an ordinary token (a name token is not the
+punctuation token `)`), so from `p + 1` on it is at least one level deeper than the header at `p`
+and cannot finish inside `(p, f]`. -/
 theorem hbefore_automatic (L : Language) (hL : L ∈ cFamily ∨ L = Gen.java) (hp : HeaderPat)
     (hhp : hp ∈ L.pats) (D : Dfa Pred) (hD : compileTok hp.expr = .ok D) (toks : List Tok)
-    (p f : Nat) (hsyn : SynHeader toks p f) (hlt : f < toks.length)
-    (hname : ∀ t, toks[p]? = some t → isClose t = false) :
+    (p f : Nat) (hsyn : SynHeader toks p f) (hlt : f < toks.length) :
     ∀ q f', q < p → GreedyAt (dfaMachine D tokAcceptor) toks q f' → ¬ (p < f' ∧ f' ≤ f) := by
   intro q f' hq hg
-  exact hsyn.no_earlier_finish_inside hlt hname hq
+  exact hsyn.no_earlier_finish_inside hlt hq
     ((greedy_iff_synHeader L hL hp hhp D hD toks q f').1 hg)
 
 /-- The condition `hafter` of `C01disc.canonical_header_found` follows from "no `Name (` strictly
-inside the parameter list": every greedy match starts with a name token directly followed by `(`
-and has at least two tokens, so a match from `q > p` that finishes before `f` puts such a pair at
+inside the parameter list": every greedy match starts with a name token directly followed by a
+punctuation token `(` and has at least two tokens, so a match from `q > p` that finishes before `f` puts such a pair at
 `q` with `q + 2 < f`. -/
 theorem hafter_of_no_call (L : Language) (hL : L ∈ cFamily ∨ L = Gen.java) (hp : HeaderPat)
     (hhp : hp ∈ L.pats) (D : Dfa Pred) (hD : compileTok hp.expr = .ok D) (toks : List Tok)
@@ -181,41 +185,40 @@ def nameCloseToks : List Tok :=
   [nmT [103] 1 1, puT [40] 1 2, nmT [41] 1 3, puT [40] 1 4, nmT [120] 1 5, puT [41] 1 6,
    puT [123] 1 8, puT [125] 1 9]
 
-/-- the completeness clause WITHOUT the hypothesis on the text of the name token -/
+/-- the completeness clause WITHOUT any hypothesis on the text of the name token -/
 def CompletenessWithoutNameText : Prop :=
   ∀ (toks : List Tok) (hs : List Header) (p f : Nat), extractHeaders Gen.c toks = .ok hs →
     SynHeader toks p f → SymbolAt toks f [123] →
     (∀ q, p < q → q + 2 < f → ¬ (NameAt toks q ∧ OpenAt toks (q + 1))) →
     ∃ hd ∈ hs, hd.rng = ⟨p, f⟩
 
-/-- The hypothesis `hname` of `c_header_complete` cannot be dropped.  In `g ( ) ( x ) { }` with the
-first `)` being a NAME token, `[2, 6)` = `) ( x )` is a syntactic header followed by `{` with
-nothing call-shaped inside, but `extract_headers` reports only `[0, 6)` = `g ( ) ( x )`: the
-earlier attempt from `g` is brought back to depth 0 by the name token `)`, then runs in lockstep
-with the attempt from that token, both finish at 6, and the earlier start wins.  (No Pygments
-lexer emits a name token with the text `)`; the witness concerns the matcher on arbitrary token
-lists.) -/
-theorem completeness_without_name_text_fails : ¬ CompletenessWithoutNameText := by
-  intro hall
-  have hex : extractHeaders Gen.c nameCloseToks = .ok [⟨nmT [103] 1 1, ⟨0, 6⟩⟩] :=
-    okEq_sound (by decide +kernel)
-  obtain ⟨hd, hhd, hr⟩ := hall nameCloseToks _ 2 6 hex (by decide) (by decide) (by
-    intro q h1 h2
-    have : q = 3 := by omega
-    subst this
-    decide)
-  rw [List.mem_singleton] at hhd
-  subst hhd
-  exact absurd (congrArg Range.s hr) (by decide)
+/-- The completeness clause holds without any hypothesis on the text of the name token.  (Before
+the repair of defect F25 - `Balanced` compared token TEXTS - it was FALSE: `nameCloseToks` was the
+counterexample, a NAME token with the text `)` closed a group of an earlier attempt.  With
+`Symbol("(")` / `Symbol(")")` only punctuation tokens open and close groups.) -/
+theorem completeness_without_name_text_holds : CompletenessWithoutNameText := by
+  intro toks hs p f hex hsyn hbrace hnocall
+  obtain ⟨hd, hhd, hr, _⟩ :=
+    c_header_complete Gen.c (by simp [cFamily]) toks hs hex p f hsyn hbrace hnocall
+  exact ⟨hd, hhd, hr⟩
 
-/-- the same witness at the level of the isolation condition: both `[0, 6)` and `[2, 6)` are
-syntactic headers (greedy matches) that finish together -/
-example : SynHeader nameCloseToks 0 6 ∧ SynHeader nameCloseToks 2 6 ∧
+/-- The former counterexample, now a regression check.  In `g ( ) ( x ) { }` with the first `)`
+being a NAME token, that token is an ordinary token inside the group opened at index 1: the
+attempt from `g` stays at depth 1 after the last `)` and runs to the end of the input (`[0, 8)`,
+no `{` follows), while `[2, 6)` = `) ( x )` is a syntactic header followed by `{` with nothing
+call-shaped inside - and it IS reported (before the repair only `[0, 6)` was reported).  (No
+Pygments lexer emits a name token with the text `)`; the check concerns the matcher on arbitrary
+token lists.) -/
+theorem name_token_close_is_ordinary :
+    SynHeader nameCloseToks 0 8 ∧ ¬ SynHeader nameCloseToks 0 6 ∧ SynHeader nameCloseToks 2 6 ∧
     SymbolAt nameCloseToks 6 [123] ∧
-    ¬ (∀ t, nameCloseToks[2]? = some t → isClose t = false) := by
-  refine ⟨by decide, by decide, by decide, ?_⟩
-  intro h
-  exact absurd (h _ rfl) (by decide)
+    (∀ q, 2 < q → q + 2 < 6 → ¬ (NameAt nameCloseToks q ∧ OpenAt nameCloseToks (q + 1))) ∧
+    extractHeaders Gen.c nameCloseToks = .ok [⟨nmT [41] 1 3, ⟨2, 6⟩⟩] := by
+  refine ⟨by decide, by decide, by decide, by decide, ?_, okEq_sound (by decide +kernel)⟩
+  intro q h1 h2
+  have : q = 3 := by omega
+  subst this
+  decide
 
 /-! ## 5. KF1, syntactically -/
 
@@ -252,17 +255,16 @@ theorem java_header_sound (toks : List Tok) (hs : List Header)
 
 /-- Completeness for Java on the canonical fragment: a syntactic header followed by `{` or
 `throws ... {`, not preceded by `record` / `new`, with no `Name (` strictly inside its parameter
-list and a name token that is not the text `)`, is reported, exactly once. -/
+list, is reported, exactly once. -/
 theorem java_header_complete (toks : List Tok) (hs : List Header)
     (h : extractHeaders Gen.java toks = .ok hs) (p f : Nat)
     (hsyn : SynHeader toks p f) (hfollow : JavaFollow toks f) (hprev : JavaPrevOk toks p)
-    (hname : ∀ t, toks[p]? = some t → isClose t = false)
     (hnocall : ∀ q, p < q → q + 2 < f → ¬ (NameAt toks q ∧ OpenAt toks (q + 1))) :
     ∃ hd ∈ hs, hd.rng = ⟨p, f⟩ ∧ toks[p]? = some hd.name ∧
       ∀ hd' ∈ hs, hd'.rng.s = p → hd' = hd :=
   complete_cExpr (L := Gen.java) (by simp [Gen.all]) java_pattern.1 h hsyn
     ((followsAt_java toks f).2 hfollow) hfollow.lt
-    ((prevOk_java java_pattern.2 toks p).2 hprev) hname hnocall
+    ((prevOk_java java_pattern.2 toks p).2 hprev) hnocall
 
 /-! ## 7. JavaScript and TypeScript: the function / method pattern -/
 
@@ -285,21 +287,20 @@ theorem js_header_sound (toks : List Tok) (hs : List Header)
   · exact .inr ⟨arrow, by rw [hpats]; simp, hs2, h1, h2⟩
 
 /-- Completeness for JavaScript on the canonical fragment: let `toks[n]` be a name token directly
-followed by `(`, `f` the end of its parenthesis groups, followed by the symbol `{`, with no
-`Name (` strictly inside the parameter list and a name that is not the text `)`.  Then
+followed by a punctuation token `(`, `f` the end of its parenthesis groups, followed by the symbol
+`{`, with no `Name (` strictly inside the parameter list.  Then
 `extract_headers` reports a header named `toks[n]` with range `[funStart toks n, f)` - starting
 at the keyword `function` when `toks[n - 1]` is that keyword, at `n` otherwise - exactly once. -/
 theorem js_header_complete (toks : List Tok) (hs : List Header)
     (h : extractHeaders Gen.javascript toks = .ok hs) (n f : Nat)
     (hsyn : SynHeader toks n f) (hbrace : SymbolAt toks f [123])
-    (hname : ∀ t, toks[n]? = some t → isClose t = false)
     (hnocall : ∀ q, n < q → q + 2 < f → ¬ (NameAt toks q ∧ OpenAt toks (q + 1))) :
     ∃ hd ∈ hs, hd.rng = ⟨funStart toks n, f⟩ ∧ toks[n]? = some hd.name ∧
       ∀ hd' ∈ hs, hd'.rng.s = funStart toks n → hd' = hd := by
   obtain ⟨arrow, hpats, hprev⟩ := js_pattern
   exact complete_fExpr (L := Gen.javascript) (by simp [Gen.all])
     (by rw [hpats]; exact List.mem_cons_self ..) hprev h hsyn
-    ((followsAt_brace toks f).2 hbrace) hbrace.lt hname hnocall
+    ((followsAt_brace toks f).2 hbrace) hbrace.lt hnocall
 
 /-- Soundness for TypeScript: as for JavaScript, with the follow-up `{` or `: ... {` (a return
 type annotation without `;` or `{`). -/
@@ -323,27 +324,24 @@ TypeScript follow-up). -/
 theorem ts_header_complete (toks : List Tok) (hs : List Header)
     (h : extractHeaders Gen.typescript toks = .ok hs) (n f : Nat)
     (hsyn : SynHeader toks n f) (hfollow : TsFollow toks f)
-    (hname : ∀ t, toks[n]? = some t → isClose t = false)
     (hnocall : ∀ q, n < q → q + 2 < f → ¬ (NameAt toks q ∧ OpenAt toks (q + 1))) :
     ∃ hd ∈ hs, hd.rng = ⟨funStart toks n, f⟩ ∧ toks[n]? = some hd.name ∧
       ∀ hd' ∈ hs, hd'.rng.s = funStart toks n → hd' = hd := by
   obtain ⟨arrow, hpats, hprev⟩ := ts_pattern
   exact complete_fExpr (L := Gen.typescript) (by simp [Gen.all])
     (by rw [hpats]; exact List.mem_cons_self ..) hprev h hsyn
-    ((followsAt_ts toks f).2 hfollow) hfollow.lt hname hnocall
+    ((followsAt_ts toks f).2 hfollow) hfollow.lt hnocall
 
 /-! ## 8. non-vacuity -/
 
 /-- `int f ( int a ) { }` (the tokens of `C01disc.canonToks`): `[1, 6)` = `f ( int a )` satisfies
 every hypothesis of `c_header_complete`, and is what `extract_headers` returns -/
 example : SynHeader C01disc.canonToks 1 6 ∧ SymbolAt C01disc.canonToks 6 [123] ∧
-    (∀ t, C01disc.canonToks[1]? = some t → isClose t = false) ∧
     (∀ q, 1 < q → q + 2 < 6 →
       ¬ (NameAt C01disc.canonToks q ∧ OpenAt C01disc.canonToks (q + 1))) ∧
     groupEnd C01disc.canonToks 2 = some 6 ∧
     extractHeaders Gen.c C01disc.canonToks = .ok [⟨nmT [102] 1 5, ⟨1, 6⟩⟩] := by
-  refine ⟨by decide, by decide, ?_, ?_, by decide, okEq_sound (by decide +kernel)⟩
-  · intro t ht; cases ht; decide
+  refine ⟨by decide, by decide, ?_, by decide, okEq_sound (by decide +kernel)⟩
   · intro q h1 h2
     have : q = 2 ∨ q = 3 := by omega
     rcases this with rfl | rfl <;> decide
